@@ -13,22 +13,25 @@ TEMPLATE_C = "lang/driver/infrastructure/driver-template.c"
 
 
 def rule_cint(ctx):
-    res = RuleResult("R-CINT", "interval abstract interpretation of print_i64/println_i64 from clang's AST with the parameter ranging "
-                     "over all of int64_t (branches split and refine the state, the digit loop is unrolled to its exit, unsigned "
-                     "arithmetic wraps, `p - (p/10)*10` is recognised as a remainder): no signed overflow, no division by zero, every "
-                     "store lies inside the buffer and stores a digit, '-' or newline, the loop terminates within the buffer for every "
-                     "value, and write() gets exactly the bytes between the first stored character and the end of the buffer")
+    from .. import cabs
+    res = RuleResult("R-CINT", "abstract interpretation of print_i64/println_i64 from clang's AST with the parameter ranging over all of "
+                     "int64_t (intervals with exact path splitting, loops unrolled to their exits, unsigned wrap, helper functions of the "
+                     "file inlined; relations `x = +-value`, `x = (|value| div D) mod m` carried through casts, `/ c`, `x - (x / c) * c`): no "
+                     "signed overflow, no division by zero, every store inside the buffer; write() gets exactly the stored bytes; and on "
+                     "every path the bytes are the decimal representation of the value: a '-' first iff the value is negative, then "
+                     "digits where the j-th from the right is (|value| div 10^j) mod 10, their number is the number of decimal digits "
+                     "of every value taking that path, then (println only) a newline")
     path = os.path.join(ctx.root, IO_C)
     if not os.path.exists(path):
         raise AnalysisError("anchor file missing: " + IO_C)
     ast = cfront.clang_ast(path)
     fns = cfront.functions(ast)
-    for name, extra in (("print_i64", 0), ("println_i64", 1)):
+    for name, newline in (("print_i64", False), ("println_i64", True)):
         if name not in fns:
             res.inst(name, IO_C, None, "violation")
             res.violate(name, "io.c no longer defines %s" % name, IO_C, None)
             continue
-        a = cfront.analyse_function(fns[name])
+        a = cabs.analyse_function(fns[name], fns)
         groups = {}
         for kind, ok, msg, line in a.obligations:
             g = groups.setdefault(kind, [0, 0, None])
@@ -43,33 +46,80 @@ def rule_cint(ctx):
                 res.violate(ikey, "%s: %s" % (name, first[0]), IO_C, first[1])
             else:
                 res.inst(ikey, IO_C, None, "ok", "%d obligations on %d paths" % (n, len(a.finals)))
-        # the written range is exactly [start, end of digits (+ newline)] on every path
         writes = [e for e in a.events if e[0] == "write"]
-        ok = bool(writes)
-        detail = ""
+        problems = {}       # check -> first message
+
+        def bad(check, msg):
+            problems.setdefault(check, msg)
+        lengths = set()
         for _, vals, st in writes:
             p, ln = vals[1], vals[2]
-            N = st.arrays.get(getattr(p, "base", None))
-            if not (isinstance(p, cfront.Ptr) and p.lo == p.hi and ln.lo == ln.hi and N is not None and p.lo + ln.lo == (N if extra == 0 else N)):
-                ok = False
-                detail = "write(%r, %r) with buffer of %s" % (p, ln, N)
-            stores = sorted(x[1].lo for x in st.trace if x[0] == "store")
-            if stores and isinstance(p, cfront.Ptr) and p.lo != stores[0]:
-                ok = False
-                detail = "write starts at %d but the first stored character is at %d" % (p.lo, stores[0])
-            # contiguity: every position from start to the end was stored
-            if stores and isinstance(p, cfront.Ptr) and set(range(p.lo, p.lo + ln.lo)) - set(stores):
-                ok = False
-                detail = "write covers positions that were never stored"
-        ikey = "%s:write-exact" % name
-        if ok and len(writes) == len(a.finals):
-            res.inst(ikey, IO_C, None, "ok", "%d paths, lengths %s" % (len(writes), sorted({e[1][2].lo for e in writes})[:3] + ["..."]))
-        else:
-            res.inst(ikey, IO_C, None, "violation")
-            res.violate(ikey, "%s: %s" % (name, detail or "not exactly one write per path"), IO_C, None)
+            if not (isinstance(p, cabs.Ptr) and p.lo == p.hi and isinstance(ln, cabs.Num) and ln.lo == ln.hi and ln.lo >= 1):
+                bad("write-exact", "write(%r, %r): start or length not exact on a path" % (p, ln))
+                continue
+            N = st.arrays.get(p.base)
+            cells = [st.mem.get((p.base, i)) for i in range(p.lo, p.lo + ln.lo)]
+            if N is None or p.lo + ln.lo > N or any(c is None for c in cells):
+                bad("write-exact", "write(%r, %d) covers bytes that were never stored" % (p, ln.lo))
+                continue
+            stored = sorted(i for (b, i) in st.mem if b == p.base)
+            if stored and stored[0] != p.lo:
+                bad("write-exact", "write starts at %d but the first stored character is at %d" % (p.lo, stored[0]))
+            if stored and stored[-1] != p.lo + ln.lo - 1:
+                bad("write-exact", "write ends at %d but the last stored character is at %d" % (p.lo + ln.lo - 1, stored[-1]))
+            lengths.add(ln.lo)
+            P, Mr = st.P, st.M
+            who = "values in [%d, %d]" % P
+            # layout
+            body = list(cells)
+            if newline:
+                if not (body and body[-1].lo == body[-1].hi == 10):
+                    bad("layout", "%s: the last byte written is %r, not a newline" % (who, body[-1] if body else None))
+                    continue
+                body = body[:-1]
+            neg = bool(body) and body[0].lo == body[0].hi == 45
+            if neg:
+                body = body[1:]
+            if P[0] < 0 <= P[1]:
+                raise AnalysisError("R-CINT: a path of %s does not determine the sign of the value" % name)
+            if neg != (P[1] < 0):
+                bad("sign", "%s: %s" % (who, "a '-' is written for a non-negative value" if neg else "no '-' is written for a negative value"))
+            if not body:
+                bad("layout", "%s: no digit is written" % who)
+                continue
+            nd = len(body)
+            for j, c in enumerate(reversed(body)):
+                if c.lo == c.hi and c.lo in (45, 10):
+                    bad("layout", "%s: a '%s' is written among the digits" % (who, "-" if c.lo == 45 else "\\n"))
+                    break
+                if not (c.chr and c.sym):
+                    raise AnalysisError("R-CINT: %s stores a digit whose relation to the value the analysis cannot follow (%r)" % (name, c))
+                if c.sym[1] != 10 or c.sym[0] != 10 ** j:
+                    bad("digit-weights", "%s: the digit %d places from the right is (|value| div %d) mod %s, it must be (|value| div %d) mod 10"
+                        % (who, j, c.sym[0], c.sym[1], 10 ** j))
+                    break
+            # count: every value on this path has exactly nd digits
+            lo_ok = Mr[0] >= (10 ** (nd - 1) if nd > 1 else 0)
+            hi_ok = Mr[1] <= 10 ** nd - 1
+            if not (lo_ok and hi_ok):
+                if Mr[0] > 10 ** nd - 1 or Mr[1] < (10 ** (nd - 1) if nd > 1 else 0):
+                    bad("digit-count", "%s (|value| in [%d, %d]): %d digits are written, the value has %s" %
+                        (who, Mr[0], Mr[1], nd, "more" if Mr[0] > 10 ** nd - 1 else "fewer"))
+                elif "digit-weights" not in problems:
+                    raise AnalysisError("R-CINT: %s: path with %d digits and |value| in [%d, %d]: the analysis is not precise enough to decide the digit count"
+                                        % (name, nd, Mr[0], Mr[1]))
+        if len(writes) != len(a.finals) or not writes:
+            bad("write-exact", "%d write() calls on %d paths: not exactly one per path" % (len(writes), len(a.finals)))
+        for check in ("write-exact", "layout", "sign", "digit-weights", "digit-count"):
+            ikey = "%s:%s" % (name, check)
+            if check in problems:
+                res.inst(ikey, IO_C, None, "violation")
+                res.violate(ikey, "%s: %s" % (name, problems[check]), IO_C, None)
+            else:
+                res.inst(ikey, IO_C, None, "ok", "%d paths, lengths %s" % (len(writes), sorted(lengths)[:3] + ["..."] + sorted(lengths)[-1:]))
         if len(a.finals) < 20:
             raise AnalysisError("R-CINT: only %d paths explored in %s" % (len(a.finals), name))
-    res.require_floor(8)
+    res.require_floor(12)
     return res
 
 
